@@ -447,11 +447,13 @@ def main():
         tasks.append((o, [("l3", t, max_rel) for i, t in enumerate(texts) if i % g == 0], 800))
     # one pool for all three layers; the kernel jobs are few but long, so each is its own unit and starts first
     slow_first = sorted(l2, key=lambda x: 0 if (x[0] == "NOT" and x[2]) else 1)
-    l2b = context_skeletons(both if tier == "quick" else [(a, b) for a in ops for b in ops], tier)
+    l2b = context_skeletons(both if tier == "quick" else [(a, b) for a in ops for b in ops], tier, reader_pairs=both)
+    readers = [x for x in l2b if len(x) > 3]
+    l2b = [x for x in l2b if len(x) == 3]
     if tier == "quick":
-        l2b = [x for x in l2b if not x[1] or x[2] == 0][::3]
+        l2b = [x for x in l2b if not x[1] or x[2] == 0][::3] + readers[::3]
     else:
-        l2b = l2b[::6]
+        l2b = l2b[::6] + readers
     tasks.insert(0, (gasol.optset(), [("l2b",) + x for x in l2b], 12))
     tasks.insert(0, (gasol.optset(), [("l1",) + x for x in l1] + [("l2",) + x for x in slow_first], 1))
     allres, st3 = pool.run(tasks, "checks.c03:job", job_timeout=600)
@@ -569,7 +571,7 @@ def build_instrs(expr):
         return out
 
     root = go(expr)
-    return instrs, root, consts
+    return instrs, root, consts, go
 
 
 def value_model(instrs, consts_by_term):
@@ -623,7 +625,8 @@ def value_model(instrs, consts_by_term):
 
 
 def layer2b_job(j):
-    expr, inner_on_stack, entry = j
+    expr, inner_on_stack, entry = j[:3]
+    reader = j[3] if len(j) > 3 else None         # one more instruction reading an inner term; only its result is on the stack
     gasol.import_repo()
     import sfs_generator.gasol_optimization as G
     merged, _ = load_ast()
@@ -631,10 +634,12 @@ def layer2b_job(j):
     tree = ast.Module(body=merged.body + wrapper, type_ignores=[])
     out = {"obligations": 0, "discharged": 0, "bad": [], "inconclusive": [], "paths": 0, "fired": 0, "job": repr(j)}
     g = native_globals(False)
-    instrs, root, consts = build_instrs(expr)
+    instrs, root, consts, go = build_instrs(expr)
     if entry >= len(instrs):
         return out
     tstack = [root] + (["s(11)"] if inner_on_stack and len(instrs) > 1 else []) + ["s(0)", "s(1)"]
+    if reader is not None:
+        tstack.insert(1, go(reader))
     tstack = [t for t in tstack if isinstance(t, str)]
     before_val, ctx0 = value_model(copy_instrs(instrs), consts)
     try:
@@ -759,7 +764,7 @@ def show_expr(e):
     return "%s(%s)" % (e[0], ",".join(show_expr(a) for a in e[1:]))
 
 
-def context_skeletons(pairs, tier):
+def context_skeletons(pairs, tier, reader_pairs=()):
     out = []
     leaves = ["X", "Y", "c"]
     for outer, inner in pairs:
@@ -797,6 +802,16 @@ def context_skeletons(pairs, tier):
             e = ("ISZERO", e)
             for entry in range(0, k + 1):
                 out.append((e, False, entry))
+    # two inner terms sharing an operand under one outer instruction, one of them read by a further instruction
+    for outer, inner in reader_pairs:
+        if F._arity(outer) != 2 or F._arity(inner) != 2:
+            continue
+        i1 = (inner, "X", "Y")
+        for i2 in ((inner, "X", "Z"), (inner, "Z", "Y"), (inner, "X", "c")):
+            for top in ((outer, i1, i2), (outer, i2, i1)):
+                for which in (i1, i2):
+                    for entry in (0, 1, 2):
+                        out.append((top, False, entry, ("ADD", which, "d")))
     seen, uniq = set(), []
     for x in out:
         if repr(x) not in seen:
